@@ -3,11 +3,11 @@
 // Contracts for the deductive verifier in /verif (comment-only; compiled only with -tags verif).
 package keeper
 
-//@ family tokens     key types.KeySymbol value v1.Token
+//@ family tokens     key types.KeySymbol value v1.Token prefix global:types.PrefixTokenForSymbol
 //@ family byMinUnit  key types.KeyMinUint value str
 //@ family byOwner    key types.KeyTokens value str
 //@ family byContract key types.KeyContract value str
-//@ family burned     key types.KeyBurnTokenAmt value sdk.Coin
+//@ family burned     key types.KeyBurnTokenAmt value sdk.Coin prefix global:types.PrefixBurnTokenAmt
 //@ family prm        key global:types.PrefixParamsKey value v1.Params
 
 //@ define MOD = macc("token")
@@ -266,4 +266,17 @@ package keeper
 //@   ensures burned_from_sender: err == nil ==> bal == debit(old(bal), sender, amount.Denom, amount.Amount)
 //@                                 && supply == addcoin(old(supply), amount.Denom, 0 - amount.Amount)
 //@   ensures known_token: err == nil ==> has(byMinUnit, amount.Denom)
+//@ end
+
+// ---------------------------------------------------------------------------------------------
+// Genesis export helpers (C12), inlined into token.ExportGenesis
+
+//@ func Keeper.GetTokens
+//@   inline
+//@   invariant #1 pos:    0 <= it_idx && it_idx <= it_n && len(l_tokens) == it_idx
+//@ end
+//@ func Keeper.GetAllBurnCoin
+//@   inline
+//@   invariant #1 pos:    0 <= it_idx && it_idx <= it_n && len(coins) == it_idx
+//@   invariant #1 listed: forall j:Int :: 0 <= j && j < it_idx ==> coins[j] == get(burned, it_seq[j])
 //@ end
